@@ -885,6 +885,112 @@ fn gen_ctype(rng: &mut Rng, n: u64, emit: &mut dyn FnMut(Vec<String>)) {
     }
 }
 
+// ---------------------------------------------------------------- scalar form members (C10)
+
+/// the REAL form-field readers of `http/de.rs` (`parse_field_value::<T>`, `parse_field_value_timestamp`) on a `Multipart`
+/// whose field `f` holds the text (built by the real `transform_multipart` from a one-field form)
+fn fscalar(ty: &str, t: &[u8]) -> String {
+    use s3s::verif_hooks::http::{parse_field_value, parse_field_value_timestamp, transform_multipart};
+    const B: &str = "s3vFormScalarBoundary7351";
+    let mut body = Vec::new();
+    body.extend_from_slice(format!("--{B}\r\nContent-Disposition: form-data; name=\"f\"\r\n\r\n").as_bytes());
+    body.extend_from_slice(t);
+    body.extend_from_slice(
+        format!("\r\n--{B}\r\nContent-Disposition: form-data; name=\"file\"; filename=\"x\"\r\nContent-Type: a/b\r\n\r\nX\r\n--{B}--\r\n").as_bytes(),
+    );
+    type E = Box<dyn std::error::Error + Send + Sync + 'static>;
+    let stream = futures::stream::iter(vec![Ok::<bytes::Bytes, E>(bytes::Bytes::from(body))]);
+    let Ok(m) = futures::executor::block_on(transform_multipart(stream, B.as_bytes())) else { return "noform".to_owned() };
+    // the multipart parser must have delivered the text unchanged (its business is C09/C10Form), else this is no case
+    // about the scalar reader
+    if m.find_field_value("f").map(str::as_bytes) != Some(t) {
+        return "noform".to_owned();
+    }
+    fn show<T>(r: s3s::S3Result<Option<T>>, f: impl Fn(&T) -> String) -> String {
+        match r {
+            Ok(Some(v)) => format!("ok:{}", f(&v)),
+            Ok(None) => "absent".to_owned(),
+            Err(e) => format!("err:{}", e.code().as_str()),
+        }
+    }
+    let ts = |fmt: TimestampFormat| match parse_field_value_timestamp(&m, "f", fmt) {
+        Ok(Some(v)) => ts_res(&Ok::<Timestamp, ()>(v)),
+        Ok(None) => "absent".to_owned(),
+        Err(e) => format!("err:{}", e.code().as_str()),
+    };
+    match ty {
+        "bool" => show(parse_field_value::<bool>(&m, "f"), |b| b.to_string()),
+        "i32" => show(parse_field_value::<i32>(&m, "f"), |n| n.to_string()),
+        "i64" => show(parse_field_value::<s3s::dto::WriteOffsetBytes>(&m, "f"), |n| n.to_string()),
+        "string" => show(parse_field_value::<s3s::dto::CacheControl>(&m, "f"), |x| hx(x.as_bytes())),
+        "enum" => show(parse_field_value::<s3s::dto::ObjectCannedACL>(&m, "f"), |x| hx(x.as_str().as_bytes())),
+        "ts-http" => ts(TimestampFormat::HttpDate),
+        "ts-dt" => ts(TimestampFormat::DateTime),
+        "absent" => show(parse_field_value::<i64>(&m, "g"), |n| n.to_string()),
+        _ => "badtype".to_owned(),
+    }
+}
+
+/// texts for the form-field readers: the lexical shapes of `gen_scalar` plus timestamp texts in both formats
+fn gen_fscalar(rng: &mut Rng, n: u64, emit: &mut dyn FnMut(Vec<String>)) {
+    let types = ["bool", "i32", "i64", "string", "enum", "absent"];
+    let words: [&[u8]; 18] = [b"true", b"True", b"TRUE", b"false", b"False", b"0", b"1", b"yes", b"", b"t", b"true ", b" true", b"private", b"Private", b"no-such-acl", b"a\r\nb", "é".as_bytes(), b"\xff\xfe"];
+    let bounds = ["0", "7", "007", "2147483647", "2147483648", "-2147483648", "-2147483649", "9223372036854775807", "9223372036854775808", "-9223372036854775808", "-9223372036854775809", "+5", "-0", "+-1", "99999999999999999999999"];
+    for ty in types {
+        for w in words {
+            emit(vec!["fscalar".into(), ty.into(), hx(w)]);
+        }
+        for b in bounds {
+            emit(vec!["fscalar".into(), ty.into(), hx(b.as_bytes())]);
+        }
+    }
+    let stamps = ["Wed, 21 Oct 2015 07:28:00 GMT", "Wed, 21 Oct 2015 07:28:00 UTC", "Thu, 01 Jan 1970 00:00:00 GMT", "Fri, 31 Dec 9999 23:59:59 GMT", "2015-10-21T07:28:00Z", "2015-10-21T07:28:00.123Z", "2015-10-21T07:28:00+01:00", "2015-10-21t07:28:00z", "9999-12-31T23:59:59Z", "0000-01-01T00:00:00Z", "9999-12-31T23:59:59-01:00", "1445412480", "", " 2015-10-21T07:28:00Z"];
+    for ty in ["ts-http", "ts-dt"] {
+        for st in stamps {
+            emit(vec!["fscalar".into(), ty.into(), hx(st.as_bytes())]);
+        }
+    }
+    for _ in 0..n {
+        if rng.chance(1, 3) {
+            let ty = rng.pick(&["ts-http", "ts-dt"]);
+            let st = rng.pick(&stamps);
+            let t = if rng.chance(1, 2) { mutate(rng, st) } else { st.as_bytes().to_vec() };
+            emit(vec!["fscalar".into(), (*ty).into(), hx(&t)]);
+            continue;
+        }
+        let ty = rng.pick(&types);
+        let mut t: Vec<u8> = Vec::new();
+        match rng.below(4) {
+            0 | 1 => {
+                t.extend_from_slice(rng.pick(&["", "", "", "+", "-", "+-", "--"]).as_bytes());
+                for _ in 0..rng.pick(&[0u64, 0, 0, 1, 3, 25]) {
+                    t.push(b'0');
+                }
+                if rng.chance(1, 3) {
+                    t.extend_from_slice(rng.pick(&bounds).as_bytes());
+                } else {
+                    for _ in 0..rng.range(0, 22) {
+                        t.push(b'0' + rng.below(10) as u8);
+                    }
+                }
+            }
+            2 => {
+                let g = rng.pick(&[" ", "\t", "a", ".", ".0", "e3", "_", ",", "\u{661}", "\u{ff11}", "x", "0x", "L", "\u{a0}", "\u{2212}", "\r\n"]);
+                let num = rng.pick(&["7", "12", "-3", "+5", "2147483647", "0"]);
+                if rng.chance(1, 2) {
+                    t.extend_from_slice(g.as_bytes());
+                    t.extend_from_slice(num.as_bytes());
+                } else {
+                    t.extend_from_slice(num.as_bytes());
+                    t.extend_from_slice(g.as_bytes());
+                }
+            }
+            _ => t.extend_from_slice(rng.pick(&words)),
+        }
+        emit(vec!["fscalar".into(), (*ty).into(), hx(&t)]);
+    }
+}
+
 // ---------------------------------------------------------------- scalar header members (C02)
 
 /// texts of every lexical shape for the `TryFromHeaderValue` readers of `http/de.rs` (bool, i32, i64, String)
@@ -962,6 +1068,7 @@ fn generate(rng: &mut Rng, n: u64, tier: &str, emit: &mut dyn FnMut(Vec<String>)
     // n = number of random rounds per family (each round emits several lines)
     let r = (n / 16).max(1);
     gen_scalar(rng, r * 2, emit);
+    gen_fscalar(rng, r, emit);
     gen_range(rng, r * 3, emit);
     gen_ts(rng, r, tier, emit);
     gen_cs(rng, r, emit);
@@ -1060,6 +1167,7 @@ fn evaluate(f: &[&str]) -> Vec<String> {
                 }],
             }
         }
+        "fscalar" => vec![fscalar(f[1], &unhx(f[2]))],
         "ctype" => {
             fn show(m: &ContentType) -> String {
                 let params: Vec<String> =
